@@ -534,6 +534,8 @@ def jobs(tier):
   # (a directory: IsADirectoryError) although its docstring lists
   # "MIDIConversionError: Invalid midi_file"; open() sits outside any guard.
   if tier == 'thorough':
-    add('h_object', I=1, full_k=True, budget=3000)
-    add('h_object', I=2, budget=3000)
+    # the two widest object shapes take 50+ min each since every field of the
+    # result is compared (conversion fidelity): optional
+    add('h_object', I=1, full_k=True, budget=3000, required=False)
+    add('h_object', I=2, budget=3000, required=False)
   return J
